@@ -261,4 +261,29 @@ theorem reduceDegree_lam {terms : Poly} {m : Mapping} {n : Nat} {deg : Option Na
   obtain ⟨d, hc, _⟩ := reduceDegree_core h
   exact reduceCore_lam hc
 
+theorem reduceDegreeC_core {terms : Poly} {m : Mapping} {n cdeg : Nat} {deg : Option Nat} {lam : Lam}
+    {pairs : List Key} {o : Out} (h : reduceDegreeC terms m n cdeg deg lam pairs = .ok o) :
+    ∃ d, reduceCore terms m n d lam pairs = .ok o ∧ (∀ d', deg = some d' → d = d' ∧ 2 ≤ d) ∧
+      (deg = none → d = cdeg) := by
+  unfold reduceDegreeC at h
+  split at h
+  · rename_i d
+    split at h
+    · cases h
+    · rename_i hd
+      exact ⟨d, h, fun d' hd' => (by injection hd' with hd'; subst hd'; exact ⟨rfl, Nat.le_of_not_lt hd⟩),
+        fun hn => (by cases hn)⟩
+  · exact ⟨cdeg, h, fun d' hd' => (by cases hd'), fun _ => rfl⟩
+
+theorem reduceDegreeC_lam {terms : Poly} {m : Mapping} {n cdeg : Nat} {deg : Option Nat} {lam : Lam}
+    {pairs : List Key} {o : Out} (h : reduceDegreeC terms m n cdeg deg lam pairs = .ok o) :
+    ∀ c ∈ o.certs, c.lam = lam.app c.v := by
+  obtain ⟨d, hc, _⟩ := reduceDegreeC_core h
+  exact reduceCore_lam hc
+
+/-- the refreshed-state form is the general one at the exact degree -/
+theorem reduceDegree_eq (terms : Poly) (m : Mapping) (n : Nat) (deg : Option Nat) (lam : Lam) (pairs : List Key) :
+    reduceDegree terms m n deg lam pairs = reduceDegreeC terms m n (degree terms) deg lam pairs := by
+  cases deg <;> rfl
+
 end Qv.Reduce
